@@ -47,6 +47,15 @@ var replLines = []string{
 	`"x" * 300`, `1, 2, 3`, `error("boom")`, `1, error("mid"), 2`, `[1] | .[0] | tostring | error`, `try error("caught") catch .`, `{} | .a.b | error("nope")`, `[range(2000)] | length`, `range(6) | . * 2`, `"line" , "two"`, `null`, `[range(15)] | map(. + 1)`,
 }
 
+// typed and completed with TAB inside Readline; each evaluates `history` (an OS call and so a
+// scheduling point) several times inside the completion evaluation
+var replCompletions = []string{
+	`([history, history, history] | length | {ab: .}) | .a`,
+	`(history | {key1: 1, key2: history}) | .k`,
+	`([history, history] | {x: (history | length)}) | .`,
+	`[history, history, history, history] | le`,
+}
+
 func isBigLine(l string) bool {
 	l = strings.TrimSpace(l)
 	for _, b := range replBigLines {
@@ -154,8 +163,17 @@ func genScript(t *simrt.Tape) replScript {
 				l = l + " "
 			}
 			used[l] = true
-			sc.lines = append(sc.lines, simos.Line{Text: l})
-			sc.descr = append(sc.descr, strings.TrimSpace(l))
+			ln := simos.Line{Text: l}
+			d := strings.TrimSpace(l)
+			if t.Intn(4) == 0 {
+				// TAB before the line is entered: a completion evaluation runs while fq sits in
+				// Readline; `history` is an OS seam, so the interrupter can be scheduled while
+				// that evaluation is in progress
+				ln.Complete = replCompletions[t.Intn(len(replCompletions))]
+				d = "<TAB " + ln.Complete + "> " + d
+			}
+			sc.lines = append(sc.lines, ln)
+			sc.descr = append(sc.descr, d)
 		}
 	}
 	for ; depth >= 0; depth-- {
@@ -189,6 +207,7 @@ func replOS(t *simrt.Tape, sc replScript, cli bool, cliProg string) *simos.OS {
 		o.Lines = sc.lines
 	}
 	o.Out.IsTerm = true
+	o.HistoryYields = 16
 	return o
 }
 
@@ -206,10 +225,13 @@ func (*hrepl) Run(rc *core.RunCtx) *core.RunResult {
 		fracs[i] = t.Intn(1000)
 	}
 	refEvents := 150
+	aimAtCompletion := t.Intn(2) == 0 // one interrupt is aimed at a `history` call of a completion, if there is any
+	aimWhich := t.Intn(1000)
 	// reference: same session, no interrupts (plain build only)
 	var refSeg map[string][]byte
 	var refOut []byte
 	var refReads int
+	var refHist []int
 	if !rc.Race {
 		ro := replOS(t, sc, cli, cliProg)
 		rr := runFQ(t, ro, fqOpts{Policy: simrt.PolSequential})
@@ -226,10 +248,14 @@ func (*hrepl) Run(rc *core.RunCtx) *core.RunResult {
 		}
 		refReads = len(ro.RL)
 		refEvents = ro.SeqNow()
+		refHist = append(refHist, ro.HistSeq...)
 	}
 	targets := make([]int, nInts)
 	for i, f := range fracs {
 		targets[i] = 1 + f*(refEvents+3)/1000
+	}
+	if aimAtCompletion && nInts > 0 && len(refHist) > 0 {
+		targets[0] = refHist[aimWhich%len(refHist)]
 	}
 	sort.Ints(targets)
 	// the session under interrupts
@@ -239,6 +265,10 @@ func (*hrepl) Run(rc *core.RunCtx) *core.RunResult {
 		seq    int
 		ok     bool
 		outLen int
+		// absorbed: sent while the fq task was parked inside a `history` call of a completion
+		// evaluation and fully processed (channel empty, trigger goroutine waiting again) before
+		// that call continued: it cancelled the completion evaluation (or one nested in it)
+		absorbed bool
 	}
 	ints := make([]sent, 0, 8)
 	// number of delivered interrupts that are certainly fully processed: the channel is empty
@@ -250,6 +280,16 @@ func (*hrepl) Run(rc *core.RunCtx) *core.RunResult {
 			processed = nSentOK
 		}
 		return processed
+	}
+	o.OnHistoryResume = func(pre int) {
+		if !replChanEmpty(o) || !simrt.BlockedAt("pkg/interp/interp.go") {
+			return
+		}
+		replEach(&ints, func(s *sent) {
+			if s.ok && s.pre >= pre {
+				s.absorbed = true
+			}
+		})
 	}
 	run := runFQ(t, o, fqOpts{Policy: []int{simrt.PolUniform, simrt.PolSticky2, simrt.PolSticky2, simrt.PolSticky8}[t.Intn(4)], Fine: t.Intn(3) == 0, Extra: func(sim *simrt.Sim) {
 		if nInts == 0 {
@@ -273,7 +313,21 @@ func (*hrepl) Run(rc *core.RunCtx) *core.RunResult {
 	run.account(res, o)
 	res.Fingerprint = run.Stats.Fingerprint
 	delivered := 0
+	absorbed := 0
+	for _, ev := range o.RL {
+		if ev.CompSeq > 0 {
+			res.Probes["completions"]++
+			if ev.CompNames > 0 {
+				res.Probes["completions_with_names"]++
+			}
+		}
+	}
+	res.Probes["history_calls"] += len(o.HistSeq)
 	for _, s := range ints {
+		if s.ok && s.absorbed {
+			absorbed++
+			res.Faults["interrupt_during_completion"]++
+		}
 		if s.ok {
 			delivered++
 			res.Faults["interrupt"]++
@@ -432,7 +486,9 @@ func (*hrepl) Run(rc *core.RunCtx) *core.RunResult {
 		}
 		budget := -used
 		for _, in := range ints {
-			if in.ok && in.seq < s.endSeq {
+			// (an interrupt absorbed by a completion evaluation cancelled something that writes
+			// nothing: it accounts for no missing output)
+			if in.ok && !in.absorbed && in.seq < s.endSeq {
 				budget++
 			}
 		}
@@ -460,6 +516,10 @@ func (*hrepl) Run(rc *core.RunCtx) *core.RunResult {
 	}
 	if delivered == 0 && len(o.RL) != refReads {
 		viol("session-differs-without-interrupt", "repl", "no interrupt was delivered but fq read %d lines instead of %d", len(o.RL), refReads)
+	} else if delivered > 0 && delivered == absorbed && len(o.RL) != refReads {
+		// the innermost evaluation in progress was the completion's: the REPL level hosting the
+		// line editor keeps its context
+		viol("completion-interrupt-ended-level", "repl", "every delivered interrupt (%d) arrived and was fully processed while a completion evaluation was in progress, yet fq read %d lines instead of %d", delivered, len(o.RL), refReads)
 	}
 	return res
 }
@@ -472,6 +532,13 @@ func replChanEmpty(o *simos.OS) bool { return len(o.IntCh) == 0 }
 
 //go:norace
 func replInc(p *int) { *p++ }
+
+//go:norace
+func replEach[T any](l *[]T, f func(*T)) {
+	for i := range *l {
+		f(&(*l)[i])
+	}
+}
 
 //go:norace
 func replNote[T any](l *[]T, v T) { *l = append(*l, v) }
